@@ -15,7 +15,7 @@ from .helpers import (
 from .errors import RequestError, BodyParsingError, BodySizeError
 
 
-MULTIPART_BOUNDARY_PATT = re.compile(r'^multipart/.+?boundary=(.+?)(;|$)')
+MULTIPART_BOUNDARY_PATT = re.compile(r'^multipart/.+?boundary=(.+?)(;|$)', re.IGNORECASE)
 
 
 def _iter_body(read, buff_size, *, content_length):
@@ -201,9 +201,8 @@ class BodyMixin:
         body = self.body
         markup: MultipartMarkup = body.ombott_markup
         if markup is None:
-            # should never happen since we check content-type
-            # when reading body
-            raise BodyParsingError()
+            # multipart content type without a usable boundary parameter
+            self._raise(BodyParsingError('Multipart boundary is missing'), RequestError)
         elif markup.error is not None:
             self._raise(markup.error, RequestError)
         listified = set()
